@@ -96,10 +96,10 @@ func cmdCheck(args []string) {
 	if !*keep {
 		defer os.RemoveAll(work)
 	}
-	timeout := 10000
+	timeout := 30000
 	all := false
 	if *tier == "thorough" {
-		timeout = 60000
+		timeout = 120000
 		all = true
 	}
 	known := loadKnown(filepath.Join(*verif, "known_findings.json"))
